@@ -55,7 +55,7 @@ CHECKS = {
          "Uses of unbound names and of names whose only assignment failed are unspecified; the model reads only the generated line forms." + COMMON_NOTE,
          "DESIGN.md section 6 C03"),
  "C04": ("exhaustive enumeration of call histories (execute sequences on one calculator; set_text/execute_session/execute sequences over two sessions) on the real code with differential oracles against fresh calculators and a per-session reference environment; plus setter/evaluation histories against a freshly configured calculator and a merged explicit-state BFS over session operations",
-         "Every sequence up to the stated depth of execute(t) calls over texts that touch every shared structure, every sequence of evaluations of one line shape with different operands (to hit caches keyed by shape), and every sequence of session operations over two sessions and plain evaluations is executed; each observation (values, outputs, UI tokens) must equal that of a calculator used once, each session must behave as when its own operations are replayed alone on a fresh calculator (isolation), and slot counts/values/persistence must follow the reference environment. A second layer is an explicit-state breadth-first search over operation histories with state merging (model state + observational fingerprint of the implementation as the canonical key, every edge executed on the real code by replaying the shortest history to its source state); its states, edges, per-depth counts and whether a fixed point was reached are in the evidence (DESIGN.md section 12.2). Reconfiguration histories interleave the public setters with evaluations on one calculator and compare every evaluation with a fresh calculator that was only given the configuration in force.",
+         "Every sequence up to the stated depth of execute(t) calls over texts that touch every shared structure, every sequence of evaluations of one line shape with different operands (to hit caches keyed by shape), every sequence of session operations over two sessions and plain evaluations, and walks that make every ordered pair of a 73-text pool neighbours on one calculator are executed; each observation (values, outputs, UI tokens) must equal that of a calculator used once, each session must behave as when its own operations are replayed alone on a fresh calculator (isolation), and slot counts/values/persistence must follow the reference environment. A second layer is an explicit-state breadth-first search over operation histories with state merging (model state + observational fingerprint of the implementation as the canonical key, every edge executed on the real code by replaying the shortest history to its source state); its states, edges, per-depth counts and whether a fixed point was reached are in the evidence (DESIGN.md section 12.2). Reconfiguration histories interleave the public setters with evaluations on one calculator and compare every evaluation with a fresh calculator that was only given the configuration in force.",
          "The property is observational: hidden state that never changes a result is invisible by design. The effect of calling execute_session twice on the same text is unspecified." + COMMON_NOTE,
          "DESIGN.md section 6 C04"),
  "C08": ("exhaustive enumeration of (corpus line x literal fillings) rendered and evaluated under all four separator conventions on the real code; differential oracle",
@@ -71,7 +71,7 @@ CHECKS = {
          "Letter case of unit names, duration words, am/pm and atom/field syntax is not varied; TAB is not a blank." + COMMON_NOTE,
          "DESIGN.md section 6 C16"),
  "C18": ("exhaustive enumeration of registration/deletion histories on the real code vs. a model of survivors, with a differential oracle against fresh calculators replaying only the survivors; plus merged explicit-state BFS over all operations under a state constraint",
-         "Every sequence up to the stated depth over add_rule (three languages, four rules incl. a declining one and a name clash), delete_rule, add_dynamic_type and add_dynamic_type_item (incl. a rejected duplicate with other codes) runs on its own calculator: every return value is compared with the model; after the last call 21 probe lines (en, tr) are compared with a fresh calculator on which only the survivors were registered in order, with the token the first matching non-declining rule returns, and with the chain arithmetic of the user family. A second layer is an explicit-state breadth-first search over operation histories with state merging (model state + observational fingerprint of the implementation as the canonical key, every edge executed on the real code by replaying the shortest history to its source state); its states, edges, per-depth counts and whether a fixed point was reached are in the evidence (DESIGN.md section 12.2).",
+         "Every sequence up to the stated depth over add_rule (three languages, four rules incl. a declining one and a name clash), delete_rule, add_dynamic_type and add_dynamic_type_item (incl. a rejected duplicate with other codes) runs on its own calculator: every return value is compared with the model; after the last call 25 probe lines (en, tr) are compared with a fresh calculator on which only the survivors were registered in order, with the token the first matching non-declining rule returns, with a calculator without rules where no surviving rule produces a token (a declining rule leaves no trace, highlight tokens included), and with the chain arithmetic of two user families (indices 1-3 and 2-4, any registration order); a further family probes one line per built-in rule pattern of config.json after registration/deletion histories. A second layer is an explicit-state breadth-first search over operation histories with state merging (model state + observational fingerprint of the implementation as the canonical key, every edge executed on the real code by replaying the shortest history to its source state); its states, edges, per-depth counts and whether a fixed point was reached are in the evidence (DESIGN.md section 12.2).",
          "Deleting a name shared by two surviving rules is ambiguous in the statement (both outcomes accepted)." + COMMON_NOTE,
          "DESIGN.md section 6 C18"),
  "C19": ("exhaustive enumeration of lines given by meaning x synonyms x languages on the real code; differential oracle against the English counterpart",
